@@ -155,6 +155,15 @@ reg("C09", "fault_enumeration",
     "NCP = reference ASH endpoint + EZSP simulator answering only correctly framed requests; a damaged RST/RSTACK or a second in-flight RSTACK may end in TimeoutError (inherent to ASH).",
     "DESIGN.md section 3 C09")
 
+reg("C10", "fault_enumeration",
+    "crash-point enumeration: one failure of each kind injected before/after every step of each workload's fault-free trace on the full real stack, also coinciding with the earliest host timer",
+    "After a real bring-up with an application callback registered: workloads {idle, one command in flight, one in flight + one queued, reset in progress, reset against a mute NCP} + keep-alive, "
+    "serial and socket paths, v4/v8/v14 (thorough 8 versions); failure kinds ERROR(0x51, 0x80), unsolicited RSTACK(0x00, 0x02, 0x06), silent NCP, port error, EOF, deliberate close, each alone and "
+    "in the same loop iteration as the earliest pending timer. Judged: controller-reset request reaches the application (with the reason, at once; for a silent NCP within keep-alive + command + "
+    "link budget; a reset in progress reports through its own exception), EZSP stopped, a new command raises EzspError and writes nothing, in-progress calls end within 10 s + 16 s, close produces no request.",
+    "Timeouts hard-coded in the oracle; NCP = reference ASH endpoint + EZSP simulator; use_thread=False, one hand-stepped loop, only _run_once-feasible orders.",
+    "DESIGN.md section 3 C10")
+
 ALL = ["C%02d" % i for i in range(1, 21)]
 
 
